@@ -61,8 +61,24 @@ fn handle(line: &str, oracle: bool) -> String {
         },
         (["DFENC", id, rest @ ..], false) => l3::op_dfenc(id, rest),
         (["DEC", h], false) => unhex(h).map(|d| l3::op_dec(&d)).unwrap_or_else(bad),
-        (["ENC", n, rest @ ..], false) => match n.parse::<u16>() {
-            Ok(n) => l3::op_enc(n, rest),
+        (["DEC", h], true) => unhex(h).map(|d| l3::oracle_dec(&d)).unwrap_or_else(bad),
+        (["ENC", n, rest @ ..], o) => match n.parse::<u16>() {
+            Ok(n) => if o { l3::oracle_enc(n, rest) } else { l3::op_enc(n, rest) },
+            _ => match (*n, o) {
+                ("E", false) | ("C", false) => l3::op_buildseq(&t[1..]),
+                (u, false) if u.starts_with('U') => l3::op_buildseq(&t[1..]),
+                ("E", true) | ("C", true) => { let r = l3::op_buildseq(&t[1..]); if r == "ERR EncodingNotSupported" { "PASS".into() } else { format!("FAIL C09 {}", r) } }
+                (u, true) if u.starts_with('U') => { let r = l3::op_buildseq(&t[1..]); if r == "ERR EncodingNotSupported" { "PASS".into() } else { format!("FAIL C09 {}", r) } }
+                _ => bad(),
+            },
+        },
+        (["BUILDSEQ", rest @ ..], o) => if o { l3::oracle_buildseq(rest) } else { l3::op_buildseq(rest) },
+        (["STR88591", n, rest @ ..], o) => match n.parse::<usize>() {
+            Ok(n) => if o { l3::oracle_str88591(n, rest) } else { l3::op_str88591(n, rest) },
+            _ => bad(),
+        },
+        (["ASTR", n, rest @ ..], o) => match n.parse::<usize>() {
+            Ok(n) => if o { l3::oracle_astr(n, rest) } else { l3::op_astr(n, rest) },
             _ => bad(),
         },
         _ => bad(),
